@@ -788,9 +788,26 @@ def stats(ck, case, real):
     ck.hist('name_depth', depth)
     ck.hist('slices', sum(1 for v in real['recs2'].values() if v[6] != '-') and 'some' or 'none')
   ck.hist('kind', case['kind'] if 'error' not in real else 'error:' + real['error'])
+  for a in case.get('adds', []):
+    pk = find_node(case['desc'], a['parent'])[0]
+    ck.hist('add_value_port', f"{pk} depth {len([t for t in a['parent'] if t[0] == 'a'])}{' in list' if any(t[0] == 'i' for t in a['parent']) else ''}"
+                              f"{' +add_connection' if a['connect'] else ''}")
   return has_list[0] or lazy > 0 or 'error' in real
 
+_LEAF = ['comp', [['w', ['one', ['sig', 'wire', ['bits', 8]]]], ['out', ['one', ['ifc', [['msg', ['one', ['sig', 'out', ['bits', 8]]]]]]]]]]
+
 CORPUS = [
+  # post-elaboration mutation: a debug port added to an INTERFACE of a sub-component that lives in a list, then connected
+  # to a wire of that sub-component (its host component is the sub-component, not the interface); one added to the top
+  {'desc': ['comp', [['mid', ['one', ['comp', [['leaves', ['many', [['one', _LEAF], ['one', _LEAF]]]]]]]]]],
+   'acc_construct': [], 'acc_post': [],
+   'adds': [{'parent': [['a', 'mid'], ['a', 'leaves'], ['i', 1], ['a', 'out']], 'name': 'dbg', 'dir': 'out', 'ty': ['bits', 8],
+             'connect': [['a', 'mid'], ['a', 'leaves'], ['i', 1], ['a', 'w']]},
+            {'parent': [], 'name': 'probe', 'dir': 'in', 'ty': ['struct', [['a', ['many', [['one', ['bits', 4]], ['one', ['bits', 4]]]]]]],
+             'connect': None}],
+   'acc_added': [[['a', 'mid'], ['a', 'leaves'], ['i', 1], ['a', 'out'], ['a', 'dbg'], ['s', 2, 6], ['i', 1]],
+                 [['a', 'probe'], ['a', 'a'], ['i', 1]]],
+   'kind': 'ok'},
   # fixed regression (fix: c7238e1): None as element 0 of the attribute's own list / leading rows of None; before the
   # fix the hook did not walk such a list and the objects behind the None were collected without a name
   {'desc': ['comp', [['x', ['many', [['hole'], ['one', ['sig', 'wire', ['bits', 4]]]]]],
